@@ -122,12 +122,22 @@ class C19(Check):
                   "uses only bidirectional links and connects exactly what those connect, within 2|switches| iterations; for EVERY history the LinkEvent stream alternates per link and the "
                   "adjacency is exactly the links with a recent accepted probe and no disconnect since; after every change the repaired handlers leave exactly the tree ports and the "
                   "host-facing ports of every tree switch flooding; the probe round-trips for every dpid < 2^64 and port < 2^16.  Defect witnesses (decide) for the pinned code.")
-    level_note = ("Trusted: Lean kernel, axioms propext/Classical.choice/Quot.sound, the hand-written models, this harness. The theorems are about the models; the runs below are what "
+    level_note = ("The models follow the code WITH the proposed repairs fixes/D20_discovery_delete_then_raise.diff and fixes/C19-1_spanning_tree_skip_second_direction.diff "
+                  "(Variant `fixed`); the code before them is Variant `pinned`, refuted by flood_ports_defect_D20 / flood_ports_defect_skip and reported as VIOLATION by this check. "
+                  "Trusted: Lean kernel, axioms propext/Classical.choice/Quot.sound, the hand-written models, this harness. The theorems are about the models; the runs below are what "
                   "connects them to the code. Switches without any bidirectional link are not updated by _update_tree (proposed known finding C19-2); flood_ports is stated for tree switches.")
-    rule = ("calc: every multigraph on <=4 switches (5 in thorough: sampled exhaustively by pair pattern) with <=2 parallel cables per pair, each direction independently present, "
-            "shuffled dict order + random graphs to 12 switches; hist: random topologies of 2..6 switches with redundant / parallel / one-way cables and 10..60 ops; "
-            "codec: boundary and random dpids/ports; frame: damaged and foreign LLDP.  non-trivial = calc with >=1 bidirectional pair, hist with >=1 removal event, codec always")
-    coverage_cases = 400
+    rule = ("calc (dict order shuffled per case): 2 and 3 switches exhaustive over all 13 cable options per pair (none / 1 / 2 parallel cables, each bidirectional or one-way "
+            "either way); 4 switches exhaustive over 5 options per pair (5^6; thorough: 6 options, 6^6, + 100000 sampled over all 13); 5 switches (thorough) exhaustive over {none, bidirectional, "
+            "one-way} (3^10) + 60000 sampled over all 13; random multigraphs on 5..12 switches; arbitrary link lists with shared / crossed ports.  hist: random topologies of 2..6 switches with redundant / parallel / one-way "
+            "cables and 10..60 ops.  codec: boundary x boundary and random dpids/ports.  frame: damaged and foreign LLDP.  "
+            "non-trivial = calc with a non-empty tree, hist with >=1 removal event, codec/frame always")
+    coverage_cases = 10 ** 9          # trace every case (the tracer only follows the anchored files)
+
+    def extra_evidence(self):
+        return {"anchored_lines_not_reachable_in_this_configuration":
+                "def lines (executed at import), discovery.py:352-356 (_eat_early_packets off), :371-381 (re-checks of what lldp.parse already enforced), "
+                ":399-400 / :445-446 (except around struct.unpack of a slice whose length was just tested), spanning_tree.py:193-201 (_hold_down off, connect_time None), "
+                ":227-229 (except around con.send): 35 of the 286 anchored lines; the measured maximum is 87.8 %"}
 
     # ------------------------------------------------------------------ setup
     def setup(self):
@@ -193,9 +203,9 @@ class C19(Check):
             pairs = n * (n - 1) // 2
             for pat in itertools.product(self.CABLE_OPTS, repeat=pairs):
                 cases.append(self._graph_case(n, pat, rng))
-        # 4 switches: every pattern over the 4 basic options per pair (4^6 = 4096) + two parallel cables on one pair
-        basic = [[], [(1, 1)], [(1, 0)], [(1, 1), (1, 1)]]
-        for pat in itertools.product(basic, repeat=6):
+        # 4 switches: every pattern over 5 options per pair (none, bidirectional, one-way either direction, two parallel bidirectional): 5^6 = 15625
+        five = [[], [(1, 1)], [(1, 0)], [(0, 1)], [(1, 1), (1, 1)]]
+        for pat in itertools.product(five, repeat=6):
             cases.append(self._graph_case(4, pat, rng))
         # self-link: AssertionError on both sides (outside the property; correspondence only)
         cases.append({"kind": "calc", "links": [[1, 1, 1, 2], [1, 2, 1, 1], [1, 3, 2, 1], [2, 1, 1, 3]]})
@@ -242,13 +252,29 @@ class C19(Check):
         return out
 
     def _frame_corpus(self):
-        return [{"kind": "frame", "frame": f} for f in self._frame_variants(None, 40)]
+        ch, po, tt, sd, end = (1, b"\x07dpid:2a"), (2, b"\x0217"), (3, b"\x00\x78"), (6, b"dpid:2a"), (0, b"")
+        fixed = [
+            self._mk_frame([ch, po, tt, sd, end]),                         # the well-formed one
+            self._mk_frame([(1, b"\x07dp")], tail=b"\x04"),                 # LLDP payload shorter than MIN_LEN
+            self._mk_frame([], tail=b"\x02\xc8" + b"a" * 14),               # chassis TLV declares 200 bytes, 14 follow
+            self._mk_frame([(1, b"\x07dpid:2a2a2a2a")], tail=b"\x04"),       # port TLV: one stray byte
+            self._mk_frame([ch, po], tail=b"\x06"),                         # ttl TLV: one stray byte
+            self._mk_frame([ch, po, sd, end]),                              # third TLV is not a TTL
+            self._mk_frame([ch, sd, tt, end]),                              # second TLV is not a PORT_ID
+            self._mk_frame([ch, po, tt, sd], tail=b"\x00"),                 # the loop runs out of bytes
+            self._mk_frame([ch, po, tt], tail=b"\x0c\x64abc"),              # declared length beyond the data
+            self._mk_frame([ch, po, tt], tail=b"\x0c\x03ab"),               # declared length 3, two data bytes (D14 bound check)
+            self._mk_frame([ch, po, tt, (6, b"12345678"), end]),            # 8-byte system description: FlowVisor style
+            self._mk_frame([(1, b"\x07dpid:2a"), (2, b"\x02\x00\x11"), tt, end]),   # 16-bit binary port id
+            self._mk_frame([(1, b"\x04\x00\x00\x00\x00\x00\x2a"), po, tt, end]),  # MAC chassis id
+        ]
+        return [{"kind": "frame", "frame": f} for f in fixed + self._frame_variants(None, 60)]
 
-    def _mk_frame(self, tlvs, dst=None, typ=b"\x88\xcc"):
+    def _mk_frame(self, tlvs, dst=None, typ=b"\x88\xcc", tail=b""):
         body = b""
         for t, data in tlvs:
             body += bytes([(t << 1) | (len(data) >> 8 & 1), len(data) & 255]) + data
-        return ((dst or b"\x01\x23\x20\x00\x00\x01") + b"\x02\x00\x00\x00\x00\x01" + typ + body).hex()
+        return ((dst or b"\x01\x23\x20\x00\x00\x01") + b"\x02\x00\x00\x00\x00\x01" + typ + body + tail).hex()
 
     def _frame_variants(self, rng, n):
         """foreign / damaged probes: other number formats, missing or reordered TLVs, fallbacks"""
@@ -284,7 +310,7 @@ class C19(Check):
             r = rng.random()
             if r < 0.05: f = f[:rng.randrange(28, len(f)) & ~1]          # truncated
             elif r < 0.08: f = self._mk_frame(tl, dst=b"\x01\x80\xc2\x00\x00\x0e")
-            elif r < 0.10: f = self._mk_frame(tl, typ=b"\x08\x00")
+            elif r < 0.10: f = self._mk_frame(tl, typ=b"\x88\xb5")            # an ethertype without a parser
             out.append(f)
         return out
 
@@ -350,30 +376,44 @@ class C19(Check):
     def generate(self, rng, tier):
         quick = tier == "quick"
         # calc: random multigraphs, 5..12 switches
-        for _ in range(150 if quick else 3000):
+        for _ in range(600 if quick else 6000):
             n = rng.choice([5, 5, 6, 7, 8, 10, 12])
             pool = list(range(1, 13)) if rng.random() < 0.6 else [1, 2, 3, 8, 9, 16, 17, 24, 25, 32, 33, 40, 255, 256, 4096, 2 ** 40]
             dpids = rng.sample(pool, n)
             dens = rng.choice([0.15, 0.3, 0.5])
-            pat = [rng.choice(self.CABLE_OPTS[1:]) if rng.random() < dens else [] for _ in range(n * (n - 1) // 2)]
+            pat = [rng.choice(CABLE_OPTS[1:]) if rng.random() < dens else [] for _ in range(n * (n - 1) // 2)]
             yield self._graph_case(n, pat, rng, dpids)
+        # arbitrary link lists (ports shared between links, crossed port pairs): the culling's choice of port pair under any adjacency
+        for _ in range(400 if quick else 8000):
+            n = rng.choice([2, 2, 3, 3, 4, 5])
+            dpids = rng.sample([1, 2, 3, 4, 5, 9, 17, 33, 300], n)
+            links = set()
+            for _ in range(rng.randrange(1, 14)):
+                a, b = rng.sample(dpids, 2)
+                l = (a, rng.randrange(1, 4), b, rng.randrange(1, 4))
+                links.add(l)
+                if rng.random() < 0.6: links.add((l[2], l[3], l[0], l[1]))
+            links = [list(l) for l in sorted(links)]; rng.shuffle(links)
+            yield {"kind": "calc", "links": links}
         if not quick:
-            # 5 switches, exhaustive over {none, bidirectional, one-way, two parallel bidirectional} per pair: 4^10 ~ 1M is too many for one run;
-            # all 3^10 = 59049 patterns over {none, bidirectional, one-way} plus 20000 sampled with parallels
+            # 5 switches: all 3^10 = 59049 patterns over {none, bidirectional, one-way}, then 60000 sampled over all 13 options per pair;
+            # 4 switches: 100000 sampled over all 13 options per pair (13^6 = 4.8M is not enumerated)
+            six = [[], [(1, 1)], [(1, 0)], [(0, 1)], [(1, 1), (1, 1)], [(1, 1), (1, 0)]]
+            for pat in itertools.product(six, repeat=6):                  # 4 switches, 6 options per pair: 46656
+                yield self._graph_case(4, pat, rng)
             basic3 = [[], [(1, 1)], [(1, 0)]]
             for pat in itertools.product(basic3, repeat=10):
                 yield self._graph_case(5, pat, rng)
-            for _ in range(20000):
-                yield self._graph_case(5, [rng.choice(self.CABLE_OPTS) for _ in range(10)], rng)
-            # 4 switches, all 12 options per pair, sampled
-            for _ in range(20000):
-                yield self._graph_case(4, [rng.choice(self.CABLE_OPTS) for _ in range(6)], rng)
-        for _ in range(250 if quick else 5000):
+            for _ in range(60000):
+                yield self._graph_case(5, [rng.choice(CABLE_OPTS) for _ in range(10)], rng)
+            for _ in range(100000):
+                yield self._graph_case(4, [rng.choice(CABLE_OPTS) for _ in range(6)], rng)
+        for _ in range(1200 if quick else 15000):
             yield self._history(rng)
-        for _ in range(100 if quick else 3000):
+        for _ in range(400 if quick else 5000):
             yield {"kind": "codec", "dpid": rng.choice([rng.getrandbits(64), rng.getrandbits(rng.randrange(1, 65)), rng.randrange(0, 300)]),
                    "port": rng.choice([rng.getrandbits(16), rng.randrange(0, 120)])}
-        for f in self._frame_variants(rng, 150 if quick else 3000):
+        for f in self._frame_variants(rng, 400 if quick else 5000):
             yield {"kind": "frame", "frame": f}
 
     def search_cases(self, rng, tier):
